@@ -279,6 +279,20 @@ class Equals(ParametrizedDependentType):
     def check(self, value):
         return value in self.parameters
 
+    def _values(self):
+        # The order in which the values are written does not matter
+        return frozenset((type(p), p) for p in self.parameters)
+
+    def __eq__(self, other):
+        return (
+            type(self) is type(other)
+            and self._values() == other._values()
+            and self.bound == other.bound
+        )
+
+    def __hash__(self):
+        return hash(self._values()) ^ hash(self.bound)
+
     @classmethod
     def keygen(cls):
         return "{arg}"
